@@ -1,0 +1,29 @@
+//go:build verif
+
+package fr
+
+// Verification-only access to the unexported arithmetic back ends, so that a
+// runtime monitor can compare the assembly paths (with and without ADX) and
+// the portable generic functions on the same operands.
+
+func VerifMulGeneric(z, x, y *Element)       { _mulGeneric(z, x, y) }
+func VerifAddGeneric(z, x, y *Element)       { _addGeneric(z, x, y) }
+func VerifSubGeneric(z, x, y *Element)       { _subGeneric(z, x, y) }
+func VerifNegGeneric(z, x *Element)          { _negGeneric(z, x) }
+func VerifDoubleGeneric(z, x *Element)       { _doubleGeneric(z, x) }
+func VerifFromMontGeneric(z *Element)        { _fromMontGeneric(z) }
+func VerifReduceGeneric(z *Element)          { _reduceGeneric(z) }
+func VerifButterflyGeneric(a, b *Element)    { _butterflyGeneric(a, b) }
+func VerifMulByConstant(z *Element, c uint8) { mulByConstant(z, c) }
+func VerifReduce(z *Element)                 { reduce(z) }
+
+// VerifSupportAdx reports the flag the assembly multiplication reads.
+func VerifSupportAdx() bool { return supportAdx }
+
+// VerifSetSupportAdx sets the flag the assembly multiplication reads and
+// returns the previous value. Only for single-threaded monitors.
+func VerifSetSupportAdx(v bool) bool {
+	old := supportAdx
+	supportAdx = v
+	return old
+}
